@@ -148,6 +148,7 @@ fn token_case(toks: &[Tok]) {
     count!("evaluations");
     let (src, ranges) = tok::layout(toks);
     let real = tok::real_tokens(&src, toks, &ranges);
+    // every identifier is spelled `x`; binders of the sequence itself make some of them bound
     bind::with_tokens(&src, &real, &[], 2, |f| match f {
         Front::Panic { stage, message } => violation(&format!("{stage}-panic"), &src, "no panic", &format!("panic: {message}")),
         Front::ParseErr { errors, .. } => {
@@ -160,10 +161,33 @@ fn token_case(toks: &[Tok]) {
                 }
             }
         }
-        _ => {
+        Front::TypeErr { term, .. } | Front::Ok { term, .. } => {
             count!("lib_accepted");
             count!("nontrivial");
+            // The parser accepted it: push it through the type checker as well, unless the reference
+            // finds a piece whose normalisation does not terminate (divergence written in the program).
+            let m = crate::model::mterm::mirror(term);
+            if crate::props::sem::has_divergent_piece(&m) {
+                count!("skipped_divergent");
+                return;
+            }
+            // SAFETY: as in bind::with_tokens — the text outlives this call
+            let src_a: &str = unsafe { std::mem::transmute::<&str, &str>(src.as_str()) };
+            let term_a: &crate::term::Term = unsafe { std::mem::transmute::<&crate::term::Term, &crate::term::Term>(term) };
+            let r = bind::guard(|| {
+                let (mut tc, mut dc) = (vec![], vec![]);
+                let r = crate::type_checker::type_check(None, src_a, term_a, &mut tc, &mut dc);
+                (r.map(|_| ()).map_err(|e| e.len()), tc.len(), dc.len())
+            });
+            match r {
+                Err(m) => violation("type_check-panic", &src, "no panic", &format!("panic: {m}")),
+                Ok((Err(0), _, _)) => violation("empty-error-list", &src, "Err(non-empty)", "type_check returned Err(vec![])"),
+                Ok((_, t, d)) if t != 0 || d != 0 => violation("contexts-not-restored", &src, "empty contexts after type_check", &format!("{t} / {d} entries")),
+                Ok((Ok(()), _, _)) => count!("type_checked_ok"),
+                Ok((Err(_), _, _)) => count!("type_checked_rejected"),
+            }
         }
+        Front::TokenizeErr(_) => {}
     });
 }
 
@@ -388,9 +412,9 @@ impl Prop for C14 {
     fn evidence(&self, tier: Tier) -> EvidenceSpec {
         EvidenceSpec {
             level: "exploration",
-            rule: "in-process, in isolated workers with a 16 MiB stack: every string up to the C09 bounds through tokenize+parse; every token sequence up to length 4/5 over all 29 token symbols (28 kinds + line-break terminator, so also streams tokenize never emits) and of length 5/6 over a 21-symbol class alphabet through parse; every sentence of grammar.y up to 5/7 tokens (class alphabet) with every single-token deletion, substitution (29 kinds) and insertion (29 kinds at every position). Each stage must return Ok or a non-empty error list, never panic, never abort, never exceed the watchdog. Process level: the real `gram check` binary on every byte string of length <= 1, every pair over a byte class alphabet (quick) / all 65536 pairs (thorough), the examples and single-byte invalid-UTF-8 mutations of them, an empty file, a missing file and a directory: exit 0 with output and no stderr, or exit 1 with no output and an [Error] diagnostic; and the verdict must agree with the in-process pipeline. non-trivial = inputs that reach name resolution or beyond, and launches that satisfied the contract".to_owned(),
+            rule: "in-process, in isolated workers with a 16 MiB stack: every string up to the C09 bounds through tokenize+parse (and type_check when they parse); every token sequence up to length 4/5 over all 29 token symbols (28 kinds + line-break terminator, so also streams tokenize never emits) and of length 5/6 over a 21-symbol class alphabet through parse; every sentence of grammar.y up to 5/7 tokens (class alphabet) with every single-token deletion, substitution (29 kinds) and insertion (29 kinds at every position). Each stage must return Ok or a non-empty error list, never panic, never abort, never exceed the watchdog. Process level: the real `gram check` binary on every byte string of length <= 1, every pair over a byte class alphabet (quick) / all 65536 pairs (thorough), the examples and single-byte invalid-UTF-8 mutations of them, an empty file, a missing file and a directory: exit 0 with output and no stderr, or exit 1 with no output and an [Error] diagnostic; and the verdict must agree with the in-process pipeline. non-trivial = inputs that reach name resolution or beyond, and launches that satisfied the contract".to_owned(),
             assumptions: vec![
-                "type checking of token soup is exercised by the semantic checks (C01, C03, C05), where abnormal endings are classified by the reference checker; this check drives the stages that must always terminate".to_owned(),
+                "token sequences that parse are also type checked in-process unless the reference finds a divergent piece in them (counted as skipped_divergent); an abnormal ending after that pre-screen is a violation".to_owned(),
                 "NO_COLOR=1 (as the repository's CI)".to_owned(),
             ],
             evaluations: "evaluations",
